@@ -192,7 +192,7 @@ func diffFeatures(got []model.NodeManagementDetailedDiscoveryFeatureInformationT
 			return "feature-not-in-tree", fmt.Sprintf("announced feature {%s} is not a feature of the local tree", g)
 		}
 		switch {
-		case g.dev != w.dev:
+		case g.dev != "" && g.dev != w.dev:
 			return "feature-device-address", fmt.Sprintf("feature %s is announced with device address %q, the local device is %q", g.key, g.dev, w.dev)
 		case g.typ != w.typ || g.role != w.role:
 			return "type-or-role", fmt.Sprintf("feature %s announced as %s/%s, it is %s/%s", g.key, g.typ, g.role, w.typ, w.role)
@@ -257,7 +257,7 @@ type machine struct {
 }
 
 func (m *machine) logf(format string, a ...any) { m.hist = append(m.hist, fmt.Sprintf(format, a...)) }
-func (m *machine) history() string               { return "\n history:\n  " + strings.Join(m.hist, "\n  ") }
+func (m *machine) history() string              { return "\n history:\n  " + strings.Join(m.hist, "\n  ") }
 
 func (m *machine) mutated(kind string) {
 	m.lastMut = kind
@@ -793,7 +793,7 @@ func (m *machine) readFrom(t *rapid.T, pi int) {
 		if _, dup := got[k]; dup {
 			world.Fail(t, "C07/reply/entity-listed-twice/"+after, "entity %s is listed twice in the reply%s", k, m.history())
 		}
-		if ed.EntityAddress.Device == nil || string(*ed.EntityAddress.Device) != world.LocalAddr {
+		if ed.EntityAddress.Device != nil && string(*ed.EntityAddress.Device) != world.LocalAddr {
 			world.Fail(t, "C07/reply/entity-device-address/"+after, "entity %s announced with device address %v%s", k, ed.EntityAddress.Device, m.history())
 		}
 		got[k] = ""
@@ -849,14 +849,18 @@ func (m *machine) invariant(t *rapid.T) {
 			world.Fail(t, "C07/features-accessor/count/"+m.lastMut, "entity %s has %d features, the model %d%s", e.name(), len(fs), len(e.feats), m.history())
 		}
 		ids := map[uint]bool{}
-		for i, f := range fs {
+		for _, f := range fs {
 			id := uint(*f.Address().Feature)
 			if ids[id] {
 				world.Fail(t, "C07/feature-id/duplicate-in-entity/"+m.lastMut, "entity %s holds two features with number %d%s", e.name(), id, m.history())
 			}
 			ids[id] = true
-			if !same(f, e.feats[i].obj) {
-				world.Fail(t, "C07/features-accessor/other-object/"+m.lastMut, "entity %s: feature #%d of Features() is not the feature attached there%s", e.name(), i, m.history())
+			attached := false
+			for _, fm := range e.feats {
+				attached = attached || same(f, fm.obj)
+			}
+			if !attached {
+				world.Fail(t, "C07/features-accessor/other-object/"+m.lastMut, "entity %s: Features() holds feature %d (%s/%s) which is not one of the features attached to it%s", e.name(), id, f.Type(), f.Role(), m.history())
 			}
 		}
 	}
